@@ -21,6 +21,7 @@ var (
 	errDigestCharset         = errors.New("digest: unsupported charset")
 	errDigestAlgNotSupported = errors.New("digest: algorithm is not supported")
 	errDigestQopNotSupported = errors.New("digest: no supported qop in list")
+	errDigestUnreplayable    = errors.New("digest: cannot send an unreplayable body (io.Reader) again")
 )
 
 var hashFuncs = map[string]func() hash.Hash{
@@ -45,10 +46,24 @@ func handleDigestAuthFunc(username, password string) ResponseMiddleware {
 		}
 		r := resp.Request
 		req := *r.RawRequest
+		if req.Header == nil {
+			req.Header = make(http.Header)
+		}
 		if req.Body != nil {
-			err = parseRequestBody(client, r) // re-setup body
-			if err != nil {
-				return err
+			if r.unReplayableBody != nil {
+				// the reader was consumed by the first attempt
+				return errDigestUnreplayable
+			}
+			if r.isMultiPart && r.forceChunkedEncoding {
+				// the pipe of a streamed multipart body was consumed as well: write
+				// the body again (every other body is replayed by GetBody as it is)
+				err = parseRequestBody(client, r)
+				if err != nil {
+					return err
+				}
+				if ct := r.getHeader(header.ContentType); ct != "" {
+					req.Header.Set(header.ContentType, ct) // new boundary
+				}
 			}
 			if r.GetBody != nil {
 				body, err := r.GetBody()
@@ -58,9 +73,6 @@ func handleDigestAuthFunc(username, password string) ResponseMiddleware {
 				req.Body = body
 				req.GetBody = r.GetBody
 			}
-		}
-		if req.Header == nil {
-			req.Header = make(http.Header)
 		}
 		req.Header.Set(header.Authorization, auth)
 		// The 401 has already been read and bound to the result targets by the
